@@ -852,6 +852,13 @@ func (o *C12) AfterTx(w *World, r *TxResult) {
 		return
 	}
 	if !got && should {
+		// a refund that does not fit the supply (2^256-1) fails on its own: the cancel is refused without being denied
+		if denom, R, ok := w.refundValue(entry); ok && strings.Contains(r.Log, "overflow") {
+			if sum := new(big.Int).Add(w.ReadState().Supply(denom).BigInt(), R.BigInt()); sum.BitLen() > 256 {
+				w.St.Probe("unrefundable-supply-overflow")
+				return
+			}
+		}
 		w.Fail("C12", "cancel-auth", "rejected", fmt.Sprintf("cancel of %s transfer %d by its sender was rejected: %s", ch, id, r.Log))
 		return
 	}
@@ -980,6 +987,15 @@ func (o *C12) AfterEnd(w *World) {
 			}
 			w.St.Check("C12:expiry-due")
 			if expired(w, e, t.Cur.Time) {
+				// a refund that does not fit the supply (minting it would pass 2^256-1) fails on its own and is tried
+				// again in the next block: that transfer - and only that one - may stay
+				if denom, R, ok := w.refundValue(e); ok {
+					sum := new(big.Int).Add(st.Supply(denom).BigInt(), R.BigInt())
+					if sum.BitLen() > 256 {
+						w.St.Probe("unrefundable-supply-overflow")
+						continue
+					}
+				}
 				w.Fail("C12", "expiry-due", "end-block", fmt.Sprintf("%s transfer %d (created %d, timeout %d ms) is past its timeout at block time %d but was neither refunded nor removed (sender %s, refund to %s on %q, token %s, amount %s fee %s commission %s)", ch, id, e.CreatedAt, w.Cfg.OutgoingTxTimeoutMs, t.Cur.Time.Unix(), e.Sender, e.RefundAddress, e.RefundChainId, e.Token.ExternalTokenId, e.Token.Amount, e.Fee.Amount, e.ValCommission.Amount))
 				return
 			}
